@@ -129,6 +129,9 @@ pub fn run(ctx: &Ctx, rep: &mut Report) {
                     vals.push(s.wrapping_add(1u64 << k) & max);
                     vals.push(s.wrapping_sub(1u64 << k) & max);
                 }
+                // every notable value of the shared table (sentinels of the family shifted, truncated,
+                // negated; 181 / 91 / 180 / 90 degrees in every plausible unit)
+                vals.extend(super::c04::notable_values(f.key, width));
                 // negated sentinel (sign handling) and random values
                 vals.push(((1u64 << width) - s) & max);
                 for _ in 0..ctx.budget(1 << 12, 1 << 16) {
